@@ -152,8 +152,14 @@ package delegation
 //@ // (time bounds) or carried over (policy node, nonce, metadata)
 //@ // input validity for sealing: a token as built by the constructors or the decoder (non-nil metadata, issuer in generated form, well-formed policy) and a key
 //@ pure func canSeal(t *Token, k crypto.PrivKey) bool = t != nil && k != nil && t.meta != nil && wfDID(t.issuer) && polWF(t.policy)
+//@ // the payload model's tag is the package constant (one-line method, verified below); the link to the interface-level name
+//@ // tagOfTok is stated for this type
+//@ func (*tokenPayloadModel).Tag
+//@   ensures [C07] tag: result == Tag
 //@ func (*Token).toIPLD
 //@   requires canSeal(t, privKey)
+//@   given forall m *tokenPayloadModel :: {tagOfTok(box(m))} tagOfTok(box(m)) == Tag
+//@   ensures [C07] envelope: result1 == nil ==> envelopeOf(result0, privKey, sealedModel(result0)) && tagOfTok(sealedModel(result0)) == Tag
 //@   assumes result1 == nil ==> result0 == sealedNoded(t, privKey, old(signings(privKey)))
 //@   assigns [C20] signings(privKey)
 //@   ensures [C08,C18] once: result1 == nil ==> signings(privKey) == old(signings(privKey)) + 1
